@@ -7,7 +7,7 @@ This is term rewriting over the extracted AST; no repository code is executed.
 """
 import ast
 import copy
-from .astutil import unparse, walk_no_nested
+from .astutil import unparse, walk_no_nested, dotted
 
 
 class _Subst(ast.NodeTransformer):
@@ -413,6 +413,15 @@ def _entailed(test, conds):
     """True/False when the path conditions already decide `test`: the same test was taken before, or the test asks whether
     X is None while `isinstance(X, T)` holds on this path"""
     tt = unparse(test)
+    # isinstance(C(...), C): an object just constructed by calling the class is an instance of it
+    if isinstance(test, ast.Call) and dotted(test.func) == "isinstance" and len(test.args) == 2 and \
+            isinstance(test.args[0], ast.Call) and dotted(test.args[0].func) is not None and \
+            dotted(test.args[0].func) == dotted(test.args[1]) and dotted(test.args[1])[:1].isupper():
+        return True
+    if isinstance(test, ast.UnaryOp) and isinstance(test.op, ast.Not):
+        inner = _entailed(test.operand, []) if isinstance(test.operand, ast.Call) else None
+        if inner is not None:
+            return not inner
     for t, pol in conds:
         if unparse(t) == tt:
             return pol
